@@ -241,6 +241,18 @@ func Judge(e *rt.Entry, sc *prog.Scenario, x *rt.Exec) []Viol {
 			break
 		}
 	}
+	// The directive's context is still live at quiescence when nobody cancelled
+	// it; a context handed to a function that is done by then is therefore not
+	// the directive's context (e.g. a derived one that generated code cancels on
+	// return: values that retain it - requests, transactions - die with it).
+	if x.CancelReq.Load() == 0 && x.Ctx().Err() == nil {
+		for _, c := range j.calls {
+			if c.Ctx != nil && c.Ctx.Err() != nil {
+				j.add(uniq("C09", "C20"), "function %d was handed a context that is done (%v) after the directive returned, although the directive's context was never cancelled", c.Fn, c.Ctx.Err())
+				break
+			}
+		}
+	}
 	if p.Flow != nil {
 		j.judgeFlow()
 	} else {
